@@ -561,6 +561,11 @@ def encoded(ctx, rr):
         v_ = r_.value
         same = isinstance(v_, ast.Name) and v_.id == prm
         encd = isinstance(v_, ast.Call) and isinstance(v_.func, ast.Attribute) and v_.func.attr == 'encode' and isinstance(v_.func.value, ast.Name) and v_.func.value.id == prm
+        if isinstance(v_, ast.Name) and v_.id != prm:
+            # a result local: every value it is given is the argument itself or the argument encoded
+            defs_ = [a.value for a in P.own(enc, ast.Assign) if any(isinstance(t, ast.Name) and t.id == v_.id for t in a.targets)]
+            same = bool(defs_) and all((isinstance(d_, ast.Name) and d_.id == prm) or (isinstance(d_, ast.Call) and isinstance(d_.func, ast.Attribute) and d_.func.attr == 'encode'
+                                                                                      and isinstance(d_.func.value, ast.Name) and d_.func.value.id in (prm, v_.id)) for d_ in defs_)
         if not (same or encd):
             badr.append(r_)
     def _is_enc(v_):
